@@ -505,3 +505,47 @@ Proof.
 Qed.
 
 End Compact.
+
+(* ------------------------------------------------------------------ matrix cells and chunks under the volume budget *)
+Theorem run_cells_volume limit n mlen mul evs :
+  1 <= limit -> 20 <= n -> volume_ok limit n mlen (zlen evs) ->
+  Forall (fun e => 0 <= e_key e /\ wf_ev mul (rck e)) evs ->
+  exists s, run limit n mlen evs = Ok s /\
+            (forall r c, 0 <= c < mul -> cell (live s) r c = cell evs r c) /\
+            StronglySorted Z.lt (map e_key (live s)).
+Proof.
+  intros Hl Hn HG Hev.
+  destruct (run_total_volume (wf_ev mul) limit n mlen evs Hl Hn Hev HG) as (s & E & D & S & K).
+  exists s. split; [exact E|]. split; [|exact S].
+  intros r c Hc. rewrite (cell_sumby mul (live s) r c Hc), (cell_sumby mul evs r c Hc).
+  - apply D.
+  - eapply Forall_impl; [|exact Hev]. simpl. intros e He. apply He.
+  - eapply Forall_impl; [|exact K]. simpl. intros e He. apply He.
+Qed.
+
+Lemma volume_ok_mono limit n mlen a b : a <= b -> volume_ok limit n mlen b -> volume_ok limit n mlen a.
+Proof. intros H (H1 & H2). split; [exact H1|lia]. Qed.
+
+Theorem end_to_end_volume doc (f : doc -> list entry) docs sizes n_threads limit (capf mlenf : Z * Z -> Z) k :
+  length sizes = length docs -> 1 <= limit -> (forall ch, 20 <= capf ch) ->
+  Forall (fun e => 0 <= e_key e) (events_of doc f docs) ->
+  (forall ch, volume_ok limit (capf ch) (mlenf ch) (zlen (events_of doc f docs))) ->
+  fold_right Z.add 0
+    (map (fun ch => acc_matrix limit (capf ch) (mlenf ch) (events_of doc f (chunk_docs docs ch)) k)
+         (chunk_boundaries sizes n_threads))
+  = sumby (events_of doc f docs) k.
+Proof.
+  intros Hlen Hl Hcap Hk Hm.
+  rewrite <- (chunked_matrix_total doc f docs sizes n_threads k Hlen). unfold chunked_matrix.
+  f_equal. apply map_ext. intros ch.
+  destruct (events_of_slice_bounds doc f docs ch) as [B1 B2].
+  destruct (run_total_volume (fun _ => True) limit (capf ch) (mlenf ch) (events_of doc f (chunk_docs docs ch)))
+    as (s & E & D & _); auto.
+  - unfold keys_nonneg. rewrite Forall_forall in *. intros x Hx. split; [apply Hk, B2, Hx|exact I].
+  - apply (volume_ok_mono _ _ _ _ _ B1), Hm.
+  - unfold acc_matrix. rewrite E. apply D.
+Qed.
+
+(* for the Examples of Properties/C04.v: the final state of a run, None if it faulted *)
+Definition run_state (limit n mlen : Z) (evs : list entry) : option coo :=
+  match run limit n mlen evs with Ok s => Some s | OOB _ => None end.
